@@ -1,6 +1,7 @@
 package main
 
 import (
+	"encoding/json"
 	"flag"
 	"fmt"
 	"io"
@@ -20,6 +21,7 @@ func serveMain(args []string) {
 	fs := flag.NewFlagSet("serve", flag.ExitOnError)
 	port := fs.Int("port", 7379, "tcp port")
 	persist := fs.String("persist", "", "persist base path")
+	treehook := fs.Bool("treehook", false, "install a dispatch hook (public SetHook API): ECHO <json reply tree> replies that tree")
 	fs.Parse(args)
 	l := lane.NewNullLane(nil)
 	emu, err := redisemu.NewEmulator(l, *port, "127.0.0.1", *persist, nil)
@@ -28,6 +30,19 @@ func serveMain(args []string) {
 		os.Exit(3)
 	}
 	installServeHooks()
+	if *treehook {
+		emu.SetHook(func(cmd string, args map[string]any) (bool, any, error) {
+			if cmd != "echo" {
+				return false, nil, nil
+			}
+			msg, _ := args["message"].(string)
+			var t any
+			if err := json.Unmarshal([]byte(msg), &t); err != nil {
+				return false, nil, nil
+			}
+			return true, treeToNative(t), nil
+		})
+	}
 	emu.Start()
 	fmt.Println("READY")
 	// exit when the parent closes our stdin (or sends "close": clean shutdown, used by persistence checks)
